@@ -252,9 +252,12 @@ class Spec(EvalableModel):
             if not isinstance(leaf, Component):
                 continue
 
-            global_fanout = 1
+            # Number of instances: the component's own fanout times the fanout of every
+            # node above it. A Compute never has anything below it (it is a side branch
+            # of the hierarchy), so Computes that precede this leaf are not parents.
+            global_fanout = leaf.get_fanout()
             for p in parents:
-                if isinstance(p, Spatialable):
+                if isinstance(p, Spatialable) and not isinstance(p, Compute):
                     global_fanout *= p.get_fanout()
 
             orig: Component = self.arch.find(leaf.name)
